@@ -264,7 +264,7 @@ pub fn run(opts: &Opts) -> Report {
     let resitem = ctx.store.resource("r").unwrap();
     let res: &TextResource = resitem.as_ref();
     let n = ctx.text.len();
-    let ops = all_ops(&[None, Some(0), Some(2)]);
+    let ops = all_ops(&[None, Some(0), Some(2), Some(usize::MAX)]);
     let rs = ranges(n);
 
     // ---------- a known selection (one that carries a handle) against a selection taken by offset alone: the relation is
